@@ -685,6 +685,7 @@ def c06(run, replay):
     scen.append({"sc": "c07.stream", "args": {"lens": [5, 5], "consumers": ["slow", "fast"], "shapes": ["only", "only"], "unary": 1}})
     trace, viol = run_ws_scenarios(run, wd, scen, "c06", timeout=3000)
     report_ws(run, trace, viol, "C06", scen, "cancel")
+    binding_pass(run, wd, [x for x in scen if x["sc"] in ("trap.subcancel", "c07.stream")], "c06", limit=4)
     run.cov["distinct_nontrivial"] = len(set(json.dumps(s, sort_keys=True) for s in scen))
     run.cov["rule"] = "cancelled subset x instant x transport (+ seeded hook delays); distinct = distinct descriptions"
     for s in scen[:3]:
@@ -981,7 +982,7 @@ def c15(run, replay):
         scen.append({"sc": "c15.end", "args": {"cause": "halffin", "mix": ["unary", "notify"], "bigblocked": True, "reverse": True}})
         scen.append({"sc": "c15.end", "args": {"cause": cause, "mix": ["unary"], "partial": True, "noping": True, "reverse": True}})
         # ... and streaming handlers hand over their channels while the forwarder cannot make progress
-        scen.append({"sc": "c15.end", "args": {"cause": cause, "mix": ["stream"], "bigblocked": True, "latesubs": 2, "reverse": True}})
+        scen.append({"sc": "c15.end", "args": {"cause": cause, "mix": ["stream"], "bigblocked": True, "latesubs": 5, "reverse": True}})
     perturb(rnd, [s for s in scen if not s["args"].get("gatereader")], ["rd.msg.pre", "rd.next.pre", "main.incoming", "main.ctxdone", "closeinflight.pre", "closechans.pre", "exec.pop", "lazy.acquire.pre",
                         "h.resp.pre", "fwd.exit", "fwd.val", "handling.add", "call.spawn", "ws.done"], 0.5)
     trace, viol = run_ws_scenarios(run, wd, scen, "c15", timeout=3000)
